@@ -67,6 +67,7 @@ def rule_f1(prog, tier):
     res = [(p, v) for (p, v) in res
            if not (isinstance(v, Raise) and v.implicit)]
     outs = []
+    rets = []
     for (p, v) in res:
         if isinstance(v, Raise):
             r.fail(Finding(PROP, 'R-F-1', I.where(v.node, f.module),
@@ -74,10 +75,27 @@ def rule_f1(prog, tier):
                            % (v.exc,)), witness=v)
         else:
             outs.append(I.snapshot(v, p))
-    if len(outs) != 1 or not isinstance(outs[0], Coll):
+            rets.append((p, outs[-1]))
+    if not outs or not all(isinstance(o, Coll) for o in outs):
         raise Inconclusive('R-F-1', 'get_fair_states returns %r' % (outs,),
                            f.where())
     term = outs[0]
+    if len(outs) > 1:
+        # several returning paths (an early `return set()` ...): per model
+        # the path whose conditions hold is the one that returns
+        from .c13 import pc_holds
+
+        def pick(env):
+            hit = []
+            for (p, o) in rets:
+                if pc_holds(p, env, I):
+                    hit.append(o)
+            if len(hit) != 1:
+                raise NotEvaluable('%d returning paths hold' % len(hit))
+            return hit[0]
+        term = App('select', Tup(outs))
+    else:
+        pick = None
     if hooks.param_mutations:
         r.fail(Finding(PROP, 'R-F-1', f.where(), f.short(), 'mutates-K',
                        'get_fair_states modifies the structure: %r' % (
@@ -94,7 +112,8 @@ def rule_f1(prog, tier):
                     env = {K: g, F: tuple(fam)}
                     want = spec_fair_states(g, fam)
                     try:
-                        lo, hi = evaluate_set(term, env)
+                        lo, hi = evaluate_set(
+                            term if pick is None else pick(env), env)
                     except GraphError as e:
                         lo = hi = 'raises ' + str(e)
                     if lo != want or hi != want:
